@@ -34,6 +34,7 @@ from harness.c01 import gen_specs
 from harness.c06 import kf_mp_transform_non_arrow
 from harness import worker_proto
 from harness import c09_rerun
+from harness import c09_artifacts
 
 LEVEL = "proof"
 logging.disable(logging.CRITICAL)
@@ -220,6 +221,8 @@ def run(rep: vlib.Reporter, tier: str, seed: int) -> None:
     rep.add("unit_level", {"tracker": {**info1, "cases": len(tc), "dropped_cases": sum(1 for _, c in tc if any(d for d, _ in c["obs"]))},
                            "deferred": {**info2, "cases": len(dc)}})
 
+    if c09_artifacts.report(rep, tier, seed):      # family `artifacts`: the finally statement before join() (Props/C09artifacts.v)
+        found = True
     specs, gstats = gen_specs(rng, 60 if big else 10)
     from harness import daggen
     specs += [daggen.gen_shared_upload(rng) for _ in range(8 if big else 2)]   # one uploaded table, several readers, the last one late
@@ -309,6 +312,8 @@ def replay(path: str) -> int:
         rc = c09_rerun.replay_main(r)
         stop_flight_server()
         return rc
+    if str(r.get("kind", "")).startswith("artifacts-"):
+        return c09_artifacts.replay_main(r)
     if r.get("kind") == "e2e":
         res = e2e(r["spec"], r["mode"], r["variant"], tuple(r["fail"]) if r.get("fail") else None)
         print(json.dumps(res, indent=1))
